@@ -38,7 +38,7 @@ RULE = ("Hypothesis-generated (grid 1-3-D incl. length-1 axes, 0-2 batch dims, 1
         "or modulo n). distinct = distinct (kernel, shapes, width, param, coordinates, dtypes).")
 ASSUMPTIONS = [
     "CPU numpy backend only (the CUDA kernels are not reachable on this image)",
-    "spline param in {0, 1, 2} (the documented orders); kaiser_bessel beta in [0.5, 15]",
+    "spline param in {0, 1, 2} (the documented orders); kaiser_bessel beta in [0.5, 40] for double-precision data (half of the draws below 15), [0.5, 15] for complex64 data (I0(40)^3 overflows single precision)",
     "width in [0.5, 6] (k/4 for dyadic cases); |coordinate| <= ~1000 * axis length so that c +- W/2 is exact in the coordinate dtype",
     "float32 coordinates only with values m/16, widths k/4 and beta q/4 (exactly representable, because width/param are cast to coord.dtype)",
     "arbitrary-float64 class: coordinates are nudged so that c +- W/2 stays >= 1e-3 away from every integer (no tie decided by rounding); tolerance 1e-9 there because (1-|t|) is formed by cancellation",
@@ -118,12 +118,25 @@ def st_case(draw):
         if kernel == "spline":
             o = draw(st.integers(0, 2))
             return float(o) if draw(st.integers(0, 3)) == 0 else o
+        big = dt != "complex64"      # I0(40)^3 ~ 3e48 leaves the single-precision range: large beta only with double data
         if cdt == "float32" or draw(st.booleans()):
-            q = draw(st.integers(2, 60))
+            q = draw(st.one_of(st.integers(2, 60), st.integers(61, 160))) if big else draw(st.integers(2, 60))
             return q // 4 if (q % 4 == 0 and as_int) else q / 4.0
+        if big:
+            return draw(st.one_of(st.floats(0.5, 15.0, allow_nan=False, allow_infinity=False),
+                                  st.floats(15.0, 40.0, allow_nan=False, allow_infinity=False)))
         return draw(st.floats(0.5, 15.0, allow_nan=False, allow_infinity=False))
 
     param = [one_param() for _ in range(nd)] if p_axis else one_param()
+
+    # ---- the library's DEFAULT kernel (linear spline, width 2) on integer coordinates with repeats: the
+    # configuration a specialised scatter path would take
+    if mode == "dyadic" and draw(st.sampled_from([False] * 9 + [True])):
+        kernel, width, param, wl = "spline", 2, 1, [2] * nd
+        w_axis = p_axis = False
+        forced_int = True
+    else:
+        forced_int = False
 
     # ---- coordinates
     rows = []
@@ -147,7 +160,7 @@ def st_case(draw):
             n = grid[d]
             if mode == "dyadic":
                 kw = int(round(Fraction(wl[d]) * 4))      # W = kw/4, W/2 = 2*kw/16
-                cls = draw(st.sampled_from(["frac", "int", "half", "tie", "neg", "far"]))
+                cls = "int" if forced_int else draw(st.sampled_from(["frac", "int", "half", "tie", "neg", "far"]))
                 if cls == "frac":
                     m = draw(st.integers(-DEN * n, 2 * DEN * n))
                 elif cls == "int":
